@@ -257,6 +257,51 @@ where
         finish_trace(ctx);
     }
     leaked_claim_case::<A, MA, UP, GA, DE, SH, MCS>(ctx);
+    by_value_lowered_case::<A, MA, UP, GA, DE, SH, MCS>(ctx);
+}
+
+/// C18, after the trace proper (direct oracle only): a by-value copy of a scope lowers the minimum alignment with
+/// `aligned::<1>`, leaves the chunk at an odd position by moving on to a bigger chunk, and is dropped.  The scope it was
+/// copied from still points at the first chunk: its position must be a multiple of ITS minimum alignment.
+fn by_value_lowered_case<A, const MA: usize, const UP: bool, const GA: bool, const DE: bool, const SH: bool, const MCS: usize>(ctx: &mut Ctx)
+where
+    A: TestBase + BaseAllocator<Bool<GA>>,
+    MinimumAlignment<MA>: SupportedMinimumAlignment,
+{
+    use bump_scope::traits::{BumpAllocatorScope, BumpAllocatorTypedScope};
+    if MA == 1 || !(ctx.prof.name == "aligned" || ctx.rng.chance(1, 12)) {
+        return;
+    }
+    BASE.with(|b| b.borrow_mut().reset(ctx.rng.next()));
+    let Ok(mut bump) = Bump::<A, S<MA, UP, GA, DE, SH, MCS>>::try_with_size_in(MCS, A::default()) else {
+        let _ = take_base_log();
+        return;
+    };
+    ctx.count("by-value copy lowers the alignment and switches chunks");
+    let small = 1 + 2 * ctx.rng.below(4) as usize; // an odd number of bytes
+    let r = catch_unwind(AssertUnwindSafe(|| {
+        let parent = bump.as_mut_scope();
+        let cap = parent.stats().current_chunk().map(|c| c.capacity()).unwrap_or(0);
+        let mut copy = parent.by_value();
+        copy.aligned::<1, _>(|inner| {
+            let _ = inner.alloc_slice_fill(small, 0u8);
+            let _ = inner.alloc_slice_fill(cap + 64, 0u8); // does not fit: the copy moves on to a new chunk
+        });
+        drop(copy);
+        let c = parent.stats().current_chunk().unwrap();
+        (c.bump_position().as_ptr() as usize, parent.stats().count())
+    }));
+    if let Ok((pos, chunks)) = r {
+        if pos % MA != 0 {
+            ctx.oracle(
+                "C18",
+                format!("BYVALUE-ALIGNED-LOWER after `scope.by_value().aligned::<1>(allocate {small} byte(s), then outgrow the chunk)` was dropped, the original scope (minimum alignment {MA}, {chunks} chunks) has its bump position at {pos:#x}"),
+            );
+        }
+    }
+    let _ = take_base_log();
+    drop(bump);
+    let _ = take_base_log();
 }
 
 /// C14, after the trace proper (nothing here is replayed on the model; direct oracles only): a claim guard that is LEAKED
